@@ -369,6 +369,57 @@ prop("C19", "exploration",
 NOT_APPLICABLE = []
 
 
+# ---------------------------------------------------------------------------------------
+# Scenarios added after the seeded-change rounds (DESIGN.md 8.5); appended to the evidence rule of the property.
+RULE_ADDENDA = {
+    "C03": "Added: every 16th iteration of the poller harness the requests arrive together with 5-128 ready descriptors of the harness in ONE "
+           "epoll_wait batch (a gate descriptor's callback holds the loop meanwhile), so that batches of exactly the current event-list size "
+           "occur; the c02 engine job also issues empty AsyncWrite/AsyncWritev requests whose callbacks must run exactly once.",
+    "C02": "Added: operations that move no bytes (empty Write / Writev, ReadFrom of a reader at EOF followed by Flush, empty asynchronous "
+           "writes), segment vectors of 1025-1300 and 2049-3000 entries, OnOpen replies of 1-3 MiB.",
+    "C04": "Added: EventLoop.Close inside OnOpen, close requests inside OnClose, an empty datagram sent to a connected client UDP socket "
+           "(a peer-induced close must carry an error), accepted sockets must be registered or closed at the quiescent point before shutdown.",
+    "C06": "Added: shutdown requested through the low-priority queue (> 1024 asynchronous writes pending), every OnClose returning Shutdown once "
+           "armed, the connection whose OnClose asks for shutdown closed five ways (peer FIN, failed write inside OnTraffic, Close action, "
+           "EventLoop.Close, Conn.Close), a non-retryable accept4 error in reactor and in SO_REUSEPORT mode with connections open, several "
+           "listeners (Rotate), client engines (Client.Stop, twice, and after a callback returned Shutdown); idle-loops and livelock predicates "
+           "besides identical goroutine dumps.",
+    "C07": "Added: failed starts (k-th epoll_create1 / eventfd / epoll_ctl ADD failing with EMFILE for Run and Client.Start; listen address in "
+           "use for Run - tcp, tcp6, udp, SO_REUSEPORT - and for the second address of Rotate): Run returns the error, every descriptor "
+           "created so far is closed exactly once, descriptors 0-2 are never touched; a duplicate of the listener (Engine.Dup / DupListener) and "
+           "of a connection (Conn.Dup) is kept by the 'user' beyond the engine's life and must stay usable.",
+    "C08": "Added: datagram sizes never exceed the REQUESTED read buffer, which is 64 KiB, 8 KiB, 2 KiB or a non-power-of-two (3000, 50000, "
+           "65507, 1025), and include exactly that size and one byte less; every fourth life listens on the machine's link-local IPv6 address "
+           "with its zone and the senders are bound to it (scoped RemoteAddr / SendTo targets); LocalAddr is compared with the listener's "
+           "address in every event while a goroutine keeps getting, filling and returning small byte-pool slices; a 32-bit (GOARCH=386) job; "
+           "the address-conversion harness inside a private namespace (interface re-created under the same name).",
+    "C12": "Added: the in-situ ledger also reports a Put of a slice that is already in the pool (returned before and not handed out since) and "
+           "runs under the c01, c02, c08 and c17 engine workloads in the quick tier; the address-conversion harness keeps converted addresses "
+           "and re-reads them under pool traffic (a zone string living in returned memory changes).",
+    "C14": "Added: iterations stopped by their callback after k entries, followed by 3-12 operations without any complete iteration; engine jobs "
+           "(default and gc_opt) in which every injected epoll_ctl ADD failure of a connection being registered must leave "
+           "Engine.CountConnections equal to opened minus closed.",
+    "C15": "Added: the 32-bit binary runs a RoundRobin history of 2^31+9 assignments (N=3); LeastConnections engine lives contain registrations "
+           "that fail (injected epoll_ctl ADD error), after which the choice must still be minimal; under SourceAddrHash connections to one "
+           "address brought in through Engine.Register (connection only, connection plus an unrelated address in the context, address only) "
+           "must all land on one loop.",
+    "C16": "Added: read, write and chunk requests drawn independently of each other (client and server).",
+    "C17": "Added: a non-nil zero-length IP is an invalid length; the last 24 converted addresses are re-read after later conversions and "
+           "byte-pool traffic (they must not change); inside the namespace an interface is deleted and re-created under the same name four "
+           "times and '%name' must convert to the current index each time; the UDP lives of C08 (RemoteAddr = sender incl. zone, LocalAddr = "
+           "listener) run as a job of this property too.",
+    "C18": "Added: EAGAIN on the wake-up eventfd write that hands a new connection to its loop (retryable: the connection must be served); "
+           "after every fault Engine.CountConnections must equal opened minus closed; pairs are installed chained (the second fault is bound to "
+           "the descriptor the first one hit); a poll_opt job in the quick tier.",
+    "C19": "Added: Register with a net.Conn that is already closed or being closed by its owner; half of the live-context lives run a frequent, "
+           "slow ticker (no callback may be executing when Stop returns nil or Run returns); two client-engine lives per run (Client.Stop after a "
+           "callback returned Shutdown, Client.Stop twice); failed starts as in C07; a poll_opt job.",
+}
+for _pid, _txt in RULE_ADDENDA.items():
+    PROPS[_pid]["rule"] += " " + _txt
+
+
+
 def write_manifest(verif):
     checks = []
     for pid in sorted(PROPS):
